@@ -62,81 +62,73 @@ Proof.
 Qed.
 Print Assumptions C12_panic_before_write_gets_500.
 
-(* A handler that writes (headers, WriteHeader s, any number of Writes) and returns a status
-   below 400: the client receives status s and the concatenated chunks, ungarbled, the header
-   committed exactly once — for every subset of the directives — provided
-   (a) templates does not buffer the response, and not (`errors visible` and err), or
-   (b) templates buffers it (extension / content type), the handler returned < 300 without
-       error and the body is not a template action.
-   The excluded combinations are false of the code: see the _refuted theorems. *)
-Theorem C12_written_response_unaltered_partial :
-  forall et c path ae sets s bs ret err,
+(* A handler that writes (headers, WriteHeader s, any number of Writes and Flushes: [wop]) and
+   returns a status below 400, with or without an error: the client receives status s and the
+   concatenated chunks [wbody ws], ungarbled, the header committed exactly once — for EVERY
+   subset of the directives, whether templates streams the response, buffers and passes it on
+   (the handler returned 300..399, as browse does for its redirect, or an error) or buffers
+   and executes it (then the body must not contain a template action, which is what templates
+   is there to replace); a Flush while templates buffers sends nothing; `errors visible`
+   logs the error of a handler that has answered instead of writing it into the response. *)
+Theorem C12_written_response_unaltered :
+  forall et c path ae sets s ws ret err,
   forallb set_ok sets = true -> status_rule c path = None ->
-  valid_code s = true -> bodyless s = false ->
-  (should_buffer (tmode_of c path) (hs_fun sets []) = false /\ ret < 400 /\
-   (err = false \/ eff_errors c <> EDebug)) \/
-  (should_buffer (tmode_of c path) (hs_fun sets []) = true /\ ret < 300 /\ err = false /\
-   contains (concat bs) TPL_OPEN = false) ->
-  let x := serve et c path ae (sets ++ OWh s :: map OWr bs) ret err in
-  cm x = Some s /\ sup x = 0%nat /\ view x = (false, concat bs).
-Proof.
-  intros et c path ae sets s bs ret err Hs Hr Hv Hb [(A & B & C) | (A & B & C & D)].
-  - exact (written_streamed et c path ae sets s bs ret err Hs Hr Hv Hb B C A).
-  - exact (written_buffered et c path ae sets s bs ret err Hs Hr Hv Hb B C A D).
-Qed.
-Print Assumptions C12_written_response_unaltered_partial.
+  valid_code s = true -> bodyless s = false -> ret < 400 ->
+  (should_buffer (tmode_of c path) (hs_fun sets []) = true -> ret < 300 -> err = false ->
+   contains (wbody ws) TPL_OPEN = false) ->
+  let x := serve et c path ae (sets ++ OWh s :: map wop_op ws) ret err in
+  cm x = Some s /\ sup x = 0%nat /\ view x = (false, wbody ws).
+Proof. exact written_response_unaltered. Qed.
+Print Assumptions C12_written_response_unaltered.
 
-Example C12_written_response_unaltered_partial_nonvacuous :
+Example C12_written_response_unaltered_nonvacuous :
   let c := {| c_reqid := false; c_limits := false; c_log := true; c_rewrite := false; c_gzip := true; c_header := true;
-              c_errors := EPlain; c_status := None; c_mime := false; c_templates := true |} in
+              c_errors := EDebug; c_status := None; c_mime := false; c_templates := true |} in
   should_buffer (tmode_of c (bs "/x.html")) (hs_fun [] []) = true /\
-  contains (concat [bs "he"; bs "llo"]) TPL_OPEN = false /\
-  let x := serve (fun _ => []) c (bs "/x.html") true ([] ++ OWh 404 :: map OWr [bs "he"; bs "llo"]) 0 false in
-  cm x = Some 404 /\ view x = (false, bs "hello").
+  contains (wbody [WWr (bs "he"); WFl; WWr (bs "llo")]) TPL_OPEN = false /\
+  (let x := serve (fun _ => []) c (bs "/x.html") true ([] ++ OWh 404 :: map wop_op [WWr (bs "he"); WFl; WWr (bs "llo")]) 0 false in
+   cm x = Some 404 /\ view x = (false, bs "hello")) /\
+  (* browse's redirect behind templates (DESIGN A17) *)
+  (let x := serve (fun _ => []) c (bs "/x.html") true ([] ++ OWh 301 :: map wop_op [WWr (bs "Moved")]) 301 false in
+   cm x = Some 301 /\ view x = (false, bs "Moved")) /\
+  (* a handler that fails after writing, under errors visible *)
+  (let x := serve (fun _ => []) c (bs "/x.html") true ([] ++ OWh 404 :: map wop_op [WWr (bs "custom")]) 0 true in
+   cm x = Some 404 /\ view x = (false, bs "custom")).
 Proof. vm_compute. repeat split; reflexivity. Qed.
 
-(* The unrestricted clause is false (DESIGN A17): templates buffers a redirect written by the
-   inner handler, the handler returns 301 as browse does, the buffered response is dropped and
-   the client receives 200 with an empty body. *)
-Theorem C12_written_response_unaltered_refuted :
-  exists et c path ae sets s bs ret,
-  forallb set_ok sets = true /\ status_rule c path = None /\ valid_code s = true /\ bodyless s = false /\
-  ret < 400 /\
-  let x := serve et c path ae (sets ++ OWh s :: map OWr bs) ret false in
-  cm x = Some 200 /\ s = 301 /\ view x = (false, []) /\ concat bs <> [].
-Proof.
-  exists (fun _ => []),
-    {| c_reqid := false; c_limits := false; c_log := false; c_rewrite := false; c_gzip := false; c_header := false;
-       c_errors := ENone; c_status := None; c_mime := false; c_templates := true |},
-    (bs "/dir"), false, [OSet K_CT V_HTML], 301, [bs "Moved"], 301.
-  vm_compute. repeat split; try reflexivity; try discriminate.
-Qed.
-Print Assumptions C12_written_response_unaltered_refuted.
+(* A handler that starts with a Write or a Flush instead of WriteHeader: at every level of the
+   writer stack (net/http, gzip's filter writer, header's wrapper, templates' ResponseBuffer)
+   the first Write or Flush commits the header exactly as WriteHeader(200) does — the whole
+   request ends in the same state — for EVERY configuration, return value and continuation. *)
+Theorem C12_implicit_header :
+  forall et c path ae sets w ws ret err,
+  forallb set_ok sets = true ->
+  serve et c path ae (sets ++ map wop_op (w :: ws)) ret err =
+  serve et c path ae (sets ++ OWh 200 :: map wop_op (w :: ws)) ret err.
+Proof. exact serve_implicit_header. Qed.
+Print Assumptions C12_implicit_header.
 
-(* ... and so is "the header is committed only once" for handlers that do not panic:
-   `errors visible` calls WriteHeader again after a handler wrote and returned (0, err), and a
-   Flush while templates buffers commits the header early. *)
-Theorem C12_single_commit_refuted :
-  (exists et c path ae s b,
-     let x := serve et c path ae [OWh s; OWr b] 0 true in
-     valid_code s = true /\ sup x = 1%nat /\ view x <> (false, b)) /\
-  (exists et c path ae s b,
-     let x := serve et c path ae [OWh s; OWr b; OFl] 0 false in
-     valid_code s = true /\ sup x = 1%nat /\ cm x <> Some s).
-Proof.
-  split.
-  - exists (fun _ => []),
-      {| c_reqid := false; c_limits := false; c_log := false; c_rewrite := false; c_gzip := false; c_header := false;
-         c_errors := EDebug; c_status := None; c_mime := false; c_templates := false |},
-      (bs "/x.txt"), false, 200, (bs "a").
-    vm_compute. repeat split; try reflexivity; discriminate.
-  - exists (fun _ => []),
-      {| c_reqid := false; c_limits := false; c_log := false; c_rewrite := false; c_gzip := false; c_header := false;
-         c_errors := ENone; c_status := None; c_mime := false; c_templates := true |},
-      (bs "/x.html"), false, 404, (bs "a").
-    vm_compute. repeat split; try reflexivity; discriminate.
-Qed.
-Print Assumptions C12_single_commit_refuted.
+(* Hence the header is committed only once also for those handlers (in particular after a
+   Flush before the header): status 200, the chunks as written, no superfluous WriteHeader. *)
+Theorem C12_single_commit :
+  forall et c path ae sets w ws ret err,
+  forallb set_ok sets = true -> status_rule c path = None -> ret < 400 ->
+  (should_buffer (tmode_of c path) (hs_fun sets []) = true -> ret < 300 -> err = false ->
+   contains (wbody (w :: ws)) TPL_OPEN = false) ->
+  let x := serve et c path ae (sets ++ map wop_op (w :: ws)) ret err in
+  cm x = Some 200 /\ sup x = 0%nat /\ view x = (false, wbody (w :: ws)).
+Proof. exact implicit_response_unaltered. Qed.
+Print Assumptions C12_single_commit.
+
+Example C12_single_commit_nonvacuous :
+  let c := {| c_reqid := false; c_limits := false; c_log := true; c_rewrite := false; c_gzip := true; c_header := true;
+              c_errors := EDebug; c_status := None; c_mime := false; c_templates := true |} in
+  (* Flush before the header behind header + gzip + templates (buffering, then streaming) *)
+  (let x := serve (fun _ => []) c (bs "/x.html") true ([OSet K_XDEL (bs "gone")] ++ map wop_op [WFl; WWr (bs "hello")]) 0 false in
+   cm x = Some 200 /\ sup x = 0%nat /\ view x = (false, bs "hello") /\ hget (csnap x) K_XDEL = None) /\
+  (let x := serve (fun _ => []) c (bs "/x.txt") true ([] ++ map wop_op [WFl; WWr (bs "hello"); WFl]) 0 true in
+   cm x = Some 200 /\ sup x = 0%nat /\ view x = (false, bs "hello")).
+Proof. vm_compute. repeat split; reflexivity. Qed.
 
 (* request_id, limits and mime never change the response. *)
 Theorem C12_transparent_directives :
